@@ -6,3 +6,5 @@ for id in "$@"; do
   (cd /verif && timeout 900 ./bin/vfy check $id 2>&1 | grep "VIOLATION\|KNOWN\|property\|BROKEN" | sed 's/replay=.verif.replays.//' | cut -c1-260)
 done
 cd /repo && git checkout -- . && git status --short | head -3
+# the runs above rewrote the evidence files from a modified tree: put the committed ones back
+cd /verif && for id in "$@"; do git checkout -- evidence/$id.json 2>/dev/null; done
